@@ -602,13 +602,25 @@ def _recv_name(e):
     return None
 
 
+def _identity_key_only(call):
+    """`id(x)` whose value is only a membership key: `id(x) in visited`, `visited.add(id(x))` (cycle detection by
+    object identity). The number never reaches an order or the output."""
+    p = getattr(call, '_parent', None)
+    if isinstance(p, ast.Compare) and all(isinstance(op, (ast.In, ast.NotIn, ast.Eq, ast.NotEq)) for op in p.ops):
+        return True
+    if isinstance(p, ast.Call) and isinstance(p.func, ast.Attribute) and p.func.attr in ('add', 'discard', 'remove') \
+            and call in p.args:
+        return True
+    return False
+
+
 def scan_extra(repo):
     """Tables besides the iteration sites:
     * adhoc: literal arguments of `_register_adhoc_import(..)` (python_type_stubs)
     * byname: iteration over the by-name lookup dicts of ApiNamespace (their insertion order may follow a set)
       -- `_imported_namespaces.items()` inside `get_imported_namespaces` (which sorts) is the one expected entry
     * ambient: calls whose result depends on the process / machine / clock (os.listdir, time, random, id, hash, ..)
-      outside `__hash__`
+      outside `__hash__`; `id(x)` used purely as a membership key (`id(x) in seen`, `seen.add(id(x))`) is not one
     * clears: functions that call `<..>.import_tracker.clear()`"""
     adhoc, byname, ambient, clears = set(), [], [], []
     for rel in scanned_files(repo):
@@ -636,7 +648,8 @@ def scan_extra(repo):
                         if (mod, name) in AMBIENT or (mod, '*') in AMBIENT:
                             ambient.append((rel, q, '%s.%s' % (mod, name)))
                     elif isinstance(n.func, ast.Name) and name in AMBIENT_BUILTINS and fn.name != '__hash__':
-                        ambient.append((rel, q, name))
+                        if not (name == 'id' and _identity_key_only(n)):
+                            ambient.append((rel, q, name))
                 # iteration over a by-name dict: for / comprehension / .items() .values() .keys() / list() sorted()
                 it = None
                 if isinstance(n, (ast.For, ast.comprehension)):
